@@ -631,6 +631,12 @@ example : LenRes (fun _ => none) (some (.ref 9 0)) (.err .ctx) := .refUndefined 
 example : LenRes (fun _ => some (.int 4)) (some (.ref 9 0)) (.ok 4) := .refInt 9 0 4 rfl
 example : LenRes (fun _ => some (.name [])) (some (.ref 9 0)) (.err .guard) := .refNotInt 9 0 _ rfl (by intro z; simp)
 
+-- look-up is by the EXACT identifier: with only (7,0) defined, `/Length 7 1 R` needs more context
+example : LenRes (fun id => if id = (7, 0) then some (.int 2) else none) (some (.ref 7 1)) (.err .ctx) :=
+  .refUndefined 7 1 (by decide)
+example : streamLength [((7, 0), ⟨.int 2, 0, 1⟩)] [(keyLength, .ref 7 1)] = .err .ctx := by decide
+example : streamLength [((7, 0), ⟨.int 2, 0, 1⟩), ((7, 1), ⟨.int 5, 0, 1⟩)] [(keyLength, .ref 7 1)] = .ok 5 := by decide
+
 -- the duplicate path: `1 0 obj 5 endobj` twice — the second call is rejected and (1,0) is rebound
 example :
     let b := ([49, 32, 48, 32, 111, 98, 106, 32, 53, 32, 101, 110, 100, 111, 98, 106, 32, 49, 32, 48, 32, 111, 98, 106, 32, 55, 32, 101, 110, 100, 111, 98, 106] : Bytes)
